@@ -134,7 +134,13 @@ fn gen_nodes(lang: &'static Lang, rng: &mut Rng, knobs: &Knobs, depth: usize, co
                         body.push(GNode::Text(lang.wrap_token(&format!("v{}", rng.below(50)))));
                     }
                 }
-                let end = place(lang, rng, knobs, true);
+                let mut end = place(lang, rng, knobs, true);
+                if lang.family == Family::Md {
+                    // reference comments and HTML comments are paired separately: keep both tags in one kind
+                    while matches!(start.form, Form::Line(_)) != matches!(end.form, Form::Line(_)) {
+                        end = place(lang, rng, knobs, true);
+                    }
+                }
                 let end_tag = if knobs.rich_tags { rng.pick(&END_TAGS).to_string() } else { "</block>".to_string() };
                 nodes.push(GNode::Blk(GBlock { tag, start, end, end_tag, body }));
             }
@@ -192,7 +198,8 @@ pub enum Mode {
 }
 
 pub fn generate(mode: Mode, rng: &mut Rng, idx: usize, _tier: Tier) -> CaseOut {
-    let all: Vec<&'static str> = LANGS.iter().map(|l| l.name).collect();
+    let mut all: Vec<&'static str> = LANGS.iter().map(|l| l.name).collect();
+    all.push("markdown");
     let tag_langs = vec!["python", "c", "rust", "html", "js", "sql", "php", "csharp", "java"];
     let knobs = match mode {
         Mode::Blocks => Knobs { rich_tags: rng.chance(1, 3), multiline_ws: true, lookalikes: rng.chance(1, 3), max_depth: 4, langs: all, echo: true },
@@ -200,11 +207,22 @@ pub fn generate(mode: Mode, rng: &mut Rng, idx: usize, _tier: Tier) -> CaseOut {
         Mode::Damaged => Knobs { rich_tags: false, multiline_ws: false, lookalikes: false, max_depth: 3, langs: all, echo: false },
     };
     let lang = lang(knobs.langs[idx % knobs.langs.len()]);
+    let mut knobs = knobs;
+    if lang.family == Family::Md {
+        // titles of reference definitions cannot hold their own delimiter; keep tags simple
+        knobs.rich_tags = false;
+        knobs.lookalikes = false;
+    }
     let mut counter = 0;
     let mut budget = rng.range(1, 6);
     let mut nodes = gen_nodes(lang, rng, &knobs, 0, &mut counter, &mut budget);
     if counter == 0 {
-        nodes.push(GNode::Blk(GBlock { tag: TagSrc::simple(&[("name", "only")]), start: place(lang, rng, &knobs, true), end: place(lang, rng, &knobs, true), end_tag: "</block>".into(), body: vec![] }));
+        let start = place(lang, rng, &knobs, true);
+        let mut end = place(lang, rng, &knobs, true);
+        while lang.family == Family::Md && matches!(start.form, Form::Line(_)) != matches!(end.form, Form::Line(_)) {
+            end = place(lang, rng, &knobs, true);
+        }
+        nodes.push(GNode::Blk(GBlock { tag: TagSrc::simple(&[("name", "only")]), start, end, end_tag: "</block>".into(), body: vec![] }));
     }
     let crlf = rng.chance(1, 6);
     let r = render(&FileSpec { lang, nodes, crlf, final_newline: !rng.chance(1, 8) });
@@ -267,8 +285,10 @@ pub fn generate(mode: Mode, rng: &mut Rng, idx: usize, _tier: Tier) -> CaseOut {
     let coq = format!("(check_list [{}] {} {})", fcs.join("; "), emit::lobs(&out.list), exp_coq);
     // by-construction comment spans vs the spans the grammar produced (C03's grammar-level claim)
     let main_idx = spec.files.iter().position(|(p, _)| *p == path).unwrap();
-    let recorded: Vec<(usize, usize)> = comments[main_idx].iter().map(|c| (c.lo, c.hi)).collect();
-    let planned: Vec<(usize, usize)> = r.spans.iter().map(|s| (s.lo, s.hi)).collect();
+    let mut recorded: Vec<(usize, usize)> = comments[main_idx].iter().map(|c| (c.lo, c.hi)).collect();
+    let mut planned: Vec<(usize, usize)> = r.spans.iter().map(|s| (s.lo, s.hi)).collect();
+    recorded.sort();
+    planned.sort();
     if mode != Mode::Damaged && recorded != planned {
         tags.push("spans:differ".into());
     }
